@@ -13,6 +13,7 @@ import Driver.Bufio
 import Driver.LineRec
 import Driver.InlineLoop
 import Driver.Reader
+import Driver.CMSpec
 namespace Driver
 
 def handle (line : String) : String :=
@@ -33,6 +34,7 @@ def handle (line : String) : String :=
   | "linerec" :: rest => handleLineRec rest
   | "inlineloop" :: rest => handleInlineLoop rest
   | "reader" :: rest => handleReader rest
+  | "cmspec" :: rest => handleCMSpec rest
   | _ => bad
 
 partial def loop (hin hout : IO.FS.Stream) : IO Unit := do
